@@ -53,7 +53,7 @@ var c10Seeds = []string{}
 
 func genC10(seed int64, tier string, emit func(run.Case)) {
 	r := gen.New(seed)
-	n := tierN(tier, 12000, 500000)
+	n := tierN(tier, 12000, 300000)
 	for i := 0; i < n; i++ {
 		q := r.Sub(i)
 		o := gen.CoreDefault
